@@ -156,7 +156,12 @@ hwloc_internal_memattrs_dup(struct hwloc_topology *new, struct hwloc_topology *o
   struct hwloc_internal_memattr_s *imattrs;
   hwloc_memattr_id_t id;
 
-  /* old->nr_memattrs is always > 0 thanks to default memattrs */
+  /* old->nr_memattrs is > 0 thanks to default memattrs,
+   * unless the topology was loaded with HWLOC_TOPOLOGY_FLAG_NO_MEMATTRS and nothing was registered since:
+   * there is no array then (and nothing to copy from a NULL pointer).
+   */
+  if (!old->nr_memattrs)
+    return 0;
 
   imattrs = hwloc_tma_malloc(tma, old->nr_memattrs * sizeof(*imattrs));
   if (!imattrs)
